@@ -52,6 +52,31 @@ func (o *owner) onWork(_ *h.Peer, wc *h.WorkConn) {
 	}
 }
 
+// supplyFrom answers every ReqWorkConn after the first `skip` ones (for owners dialled without automatic supply).
+func (o *owner) supplyFrom(skip int64, stop <-chan struct{}) {
+	handled := skip
+	for {
+		select {
+		case <-stop:
+			return
+		case <-time.After(5 * time.Millisecond):
+		}
+		for seen := o.p.ReqWorkConnSeen.Load(); handled < seen; handled++ {
+			go func() {
+				wc, err := o.p.OpenWorkConn()
+				if err != nil {
+					return
+				}
+				if _, err := wc.ReadStart(0); err != nil {
+					wc.Conn.Close()
+					return
+				}
+				o.onWork(o.p, wc)
+			}()
+		}
+	}
+}
+
 func dialOwner(user string, supplyWork bool) (*owner, error) {
 	o := &owner{chs: map[string]chan string{}}
 	pool := 1
